@@ -253,6 +253,15 @@ class Text(ExcelType):
     numeric_text = re.compile(
         r'\s*[+-]?([0-9]+\.?[0-9]*|\.[0-9]+)([eE][+-]?[0-9]+)?\s*$')
 
+    def __float__(self):
+        if not self.numeric_text.match(self.value):
+            raise xlerrors.ValueExcelError(
+                f'Could not convert {repr(self.value)} to float.')
+        return float(self.value)
+
+    def __int__(self):
+        return int(self.__float__())
+
     def __number__(self):
         if self.numeric_text.match(self.value):
             try:
